@@ -4,19 +4,20 @@ from pyvc.spec import contract, fields, specfun
 T = "eliot/testing.py::"
 LISTMSG = "list[dict[task_uuid=Any;task_level=list[int];*=Any]]"
 fields("LoggedAction", startMessage="Any", endMessage="Any", children="list")
-fields("LoggedMessage", message="Any")
+fields("LoggedMessage", message="dict")
 
-contract(T + "LoggedMessage.__new__", props=["C17"], types={"cls": "cls", "message": "Any"}, returns="LoggedMessage", modifies=[],
+contract(T + "LoggedMessage.__new__", props=["C17"], types={"cls": "cls", "message": "dict"}, returns="LoggedMessage", modifies=[],
          ensures=[("wraps-the-message", "fresh(result) and result.message == message")])
 
-contract(T + "LoggedMessage.of_type", props=["C17"], types={"messages": LISTMSG, "messageType": "Any"}, returns="list",
+contract(T + "LoggedMessage.of_type", props=["C17"], types={"messages": LISTMSG, "messageType": "Any"}, returns="list[LoggedMessage]",
          requires=[("type-given-as-text-or-MessageType", "is_str(messageType) or isinst(messageType, 'MessageType')")],
          ghosts={"EXPECT": "seq", "GOT": "seq", "TYPE": "Any"}, ghost_defaults={"EXPECT": "seq(())", "GOT": "seq(())"},
          after={"LoggedMessage.__new__#*": [("GOT", "GOT + [message]")]},
          aliases={"RESULT": 0},
          modifies=[],
          loops={0: {"locals": {"EXPECT": "seq", "GOT": "seq"}, "modifies": ["seq(RESULT)"],
-                    "ghost_init": [("TYPE", "messageType")],
+                    # the requested type as text, from the argument as it was passed (a MessageType object stands for its message_type)
+                    "ghost_init": [("TYPE", "ite(is_str(old(messageType)), old(messageType), typed(old(messageType), 'MessageType').message_type)")],
                     "ghost_step": [("EXPECT", "EXPECT + ite(dget(_x, 'message_type') == TYPE, [_x], [])")],
                     "inv": [("exactly-the-messages-of-the-type-so-far-in-order", "GOT == EXPECT and len(seq(RESULT)) == len(GOT)")]}},
          ensures=[("exactly-the-messages-of-the-type-in-order", "GOT == EXPECT and len(seq(result)) == len(GOT)", ["C17"])])
@@ -66,7 +67,7 @@ contract(T + "assertContainsFields", props=["C17"], types={"test": "role:TestCas
 
 contract(T + "assertHasMessage", props=["C17"],
          types={"testCase": "role:TestCase", "logger": "MemoryLogger", "messageType": "Any", "fields": "Opt[dict]"}, returns="LoggedMessage",
-         requires=[("type-given-as-text-or-MessageType", "is_str(messageType) or isinst(messageType, 'MessageType')")],
+         requires=[("type-given-as-text (a MessageType object is handled by LoggedMessage.of_type, see there; rendering it for the failure text is not modelled)", "is_str(messageType)")],
          ghosts={"FOUND": "Any", "N": "int"}, after={"LoggedMessage.of_type#0": [("FOUND", "box(result)"), ("N", "len(GOT)")]},
          modifies=["#CALLS", "#NTOP"],
          ensures=[("succeeds-exactly-when-the-first-message-of-the-type-has-a-superset-of-the-fields-and-returns-it",
